@@ -160,6 +160,11 @@ type run struct {
 	udp     bool
 	udpc    *net.UDPConn // udp (receive leg only): the harness's plain peer socket
 	bp      *backPressure // tcpb: sender behind a peer that does not read for a while
+	ln      net.Listener  // tcpr: the peer's listener (the permanent face dials it again after a failure)
+	ends    []int         // tcpr: ends of the blocks defined on the current connection
+	defined int           // tcpr: bytes defined on the current connection
+	written int           // tcpr: bytes written on the current connection
+	full    int           // tcpr: blocks completely written on earlier connections
 	rcvSend func([]byte) // udp: sendFrame of the RECEIVING transport
 	pa, pb  uint16       // udp: peer port, transport port
 	closeR  func() // udp: Close of the receiving transport (UDP has no end of stream)
@@ -381,6 +386,72 @@ func (r *run) finishBackPressure() string {
 	}
 }
 
+// startReconnect: the REAL outgoing UnicastTCPTransport with persistency permanent dials a listener of
+// the harness; the harness writes the stream, may abort the connection (rst => the transport's Read
+// fails, it reconnects) and carries on over the new connection.
+func startReconnect(mtu int) *run {
+	r := &run{kind: "tcpr", done: make(chan string, 1), offered: -1, isSock: true}
+	ln, err := net.Listen("tcp4", "127.0.0.1:0")
+	if err != nil {
+		return nil
+	}
+	onFrame := func(b []byte) {
+		r.mu.Lock()
+		r.frames = append(r.frames, strconv.Itoa(len(b))+":"+strconv.FormatUint(fnv64(b), 16))
+		r.nframes++
+		r.mu.Unlock()
+	}
+	recv, cls, err := fwface.VerifOutgoingTCPTransport(uint16(ln.Addr().(*net.TCPAddr).Port), fwface.PersistencyPermanent, mtu, onFrame)
+	if err != nil {
+		ln.Close()
+		return nil
+	}
+	go func() {
+		r.done <- common.Guard(func() string { recv(); return "nil" })
+	}()
+	ln.(*net.TCPListener).SetDeadline(time.Now().Add(watchdog))
+	c, err := ln.Accept()
+	if err != nil {
+		cls()
+		ln.Close()
+		return nil
+	}
+	r.sock, r.ln, r.closeR = c, ln, cls
+	return r
+}
+
+// reset aborts the current connection (RST), waits for the transport to dial again and carries on
+// over the new connection.  What was defined and not yet written is dropped (so is, by the nature of
+// a byte stream that ended, the block that was only partly written).
+func (r *run) reset() string {
+	if r.closed {
+		return "dead " + r.result
+	}
+	complete := r.full
+	for _, e := range r.ends {
+		if e <= r.written {
+			complete++
+		}
+	}
+	// everything written so far is read by the transport before the connection is aborted
+	for i := 0; i < 3000 && r.frameCount() < complete; i++ {
+		time.Sleep(time.Millisecond)
+	}
+	time.Sleep(20 * time.Millisecond)
+	r.sock.(*net.TCPConn).SetLinger(0)
+	r.sock.Close()
+	r.ln.(*net.TCPListener).SetDeadline(time.Now().Add(watchdog))
+	c, err := r.ln.Accept()
+	if err != nil {
+		r.closed = true
+		r.result = "hang k=0 f=- no reconnection: " + err.Error()
+		return r.result
+	}
+	r.sock = c
+	r.full, r.ends, r.defined, r.written, r.pending = complete, nil, 0, 0, nil
+	return "ok"
+}
+
 func freeUDPPort() uint16 {
 	c, err := net.ListenUDP("udp4", &net.UDPAddr{IP: net.IPv4(127, 0, 0, 1)})
 	if err != nil {
@@ -503,6 +574,7 @@ func (r *run) sockWrite(op string, n int) string {
 		return "hang k=0 f=- write: " + err.Error()
 	}
 	r.pending = r.pending[n:]
+	r.written += n
 	return fmt.Sprintf("k=%d w", n)
 }
 
@@ -531,6 +603,9 @@ func (r *run) sockFinish() string {
 	} else if r.closeS != nil {
 		r.closeS() // Close of the sending transport closes its connection
 	} else {
+		if r.ln != nil { // end of stream (not a failure): the permanent face ends too
+			r.ln.Close()
+		}
 		r.sock.Close()
 	}
 	select {
@@ -651,6 +726,11 @@ func exec(op string) string {
 			cur = startSock(f[1], 1<<30, common.Atoi(f[2]))
 		} else if f[1] == "appsend" {
 			cur = startAppSend()
+		} else if f[1] == "tcpr" {
+			if len(f) != 3 {
+				return "bad-op"
+			}
+			cur = startReconnect(common.Atoi(f[2]))
 		} else if f[1] == "tcpb" {
 			if len(f) != 4 {
 				return "bad-op"
@@ -678,7 +758,14 @@ func exec(op string) string {
 			return "ok"
 		}
 		cur.pending = append(cur.pending, b...)
+		cur.defined += len(b)
+		cur.ends = append(cur.ends, cur.defined)
 		return "ok"
+	case "rst":
+		if cur == nil || cur.ln == nil || len(f) != 1 {
+			return "skip"
+		}
+		return cur.reset()
 	case "cs": // two goroutines Send on one StreamFace: a Wire of <na> buffers and one of <nb> buffers
 		if cur == nil || cur.wc == nil || len(f) != 3 {
 			return "skip"
@@ -937,6 +1024,8 @@ func gen(g *common.Gen) {
 			kind = "tcp"
 			if (i/8)%7 == 1 {
 				kind = "unix"
+			} else if (i/56)%2 == 1 {
+				kind = "tcpr" // permanent outgoing TCP face whose connection is aborted now and then
 			}
 			mtu := common.Pick(r, []int{maxPkt, 1500, 128, 1280, 4000})
 			if r.Chance(1, 2) {
@@ -967,6 +1056,9 @@ func gen(g *common.Gen) {
 		default:
 			total = r.Range(1000, 60000)
 			g.Stat("style-mixed")
+		}
+		if kind == "tcpr" {
+			total = r.Range(40000, 120000)
 		}
 		small := style == 1 || (style == 2 && r.Chance(1, 2))
 		emitted, pendingLens := 0, []int{} // pendingLens: block sizes (hdr, total) not yet read, as a flat byte plan
@@ -1009,6 +1101,9 @@ func gen(g *common.Gen) {
 			leave := 0
 			if r.Chance(1, 2) {
 				leave = r.Range(0, 20)
+			}
+			if kind == "tcpr" && r.Chance(3, 4) {
+				leave = r.Range(1, 40) // a connection failure mostly finds part of a block received
 			}
 			pos := 0
 			for pend-pos > leave {
@@ -1056,6 +1151,9 @@ func gen(g *common.Gen) {
 				if n > pend-pos {
 					n = pend - pos
 				}
+				if kind == "tcpr" && n > pend-pos-leave {
+					n = pend - pos - leave // stop <leave> bytes short of the end of the last block
+				}
 				if kind == "fw" && r.Chance(1, 40) {
 					g.Op("rde 0") // an ignorable error alone
 					g.Stat("rde-0")
@@ -1081,6 +1179,17 @@ func gen(g *common.Gen) {
 				}
 			}
 			cuts = nc
+			if kind == "tcpr" && r.Chance(2, 3) {
+				// the connection fails (RST), mostly with part of a block received; the permanent face
+				// reconnects and the stream starts afresh on the new connection
+				g.Op("rst")
+				if pend > 0 {
+					g.Stat("rst-mid-block")
+				} else {
+					g.Stat("rst-at-boundary")
+				}
+				pend, cuts = 0, cuts[:0]
+			}
 		}
 		// drain and finish
 		for k := 0; k < 3; k++ { // bounded reads may have left more than the plan thinks
